@@ -96,7 +96,7 @@ namespace
     std::vector<Pt> v;
     for (double x = -1e5; x <= 4.01e5; x += 0.5e5)
       for (double y = -0.5e5; y <= (n - 1) * 2e5 + 0.51e5; y += 0.37e5)
-        for (double d : {1e4, 5e4, 1e5, 1.5e5, 2e5, 2.5e5})
+        for (double d : {1e4, 5e4, 1e5, 1.5e5, 2e5, 2.5e5, 3e5, 3.4e5})
           v.push_back({x, y, d});
     return v;
   }
@@ -175,12 +175,13 @@ namespace
     bool fault; unsigned n;
     std::vector<double> thick, length, trunc, temp, angle;
     std::vector<int> comp;   // composition painted by the section (uniform, fraction 1)
+    bool additive = false;   // section models use operation add: temperature += temp[j] - 1000, composition 0 += 0.25 (j+1)
   };
   SecWorld base_secworld(bool fault, unsigned n)
   {
     SecWorld s;
     s.fault = fault; s.n = n;
-    s.thick.assign(n, 1e5); s.length.assign(n, 3e5); s.trunc.assign(n, 0.0); s.angle.assign(n, 45.0);
+    s.thick.assign(n, 1e5); s.length.assign(n, 4e5); s.trunc.assign(n, 0.0); s.angle.assign(n, 60.0);
     for (unsigned i = 0; i < n; ++i) { s.temp.push_back(1000 + 100.0 * i); s.comp.push_back(0); }
     return s;
   }
@@ -192,8 +193,8 @@ namespace
     };
     std::string f = std::string("{\"model\":\"") + (s.fault ? "fault" : "subducting plate") + "\",\"name\":\"F\",\"coordinates\":" + pts(trench(s.n)) + ",\"dip point\":" + DIP_POINT + ",\"segments\":" + seg(0) + ",\"sections\":[";
     for (unsigned i = 0; i < s.n; ++i)
-      f += std::string(i ? "," : "") + "{\"coordinate\":" + std::to_string(i) + ",\"segments\":" + seg(i) + ",\"temperature models\":[{\"model\":\"uniform\",\"temperature\":" + num(s.temp[i]) + "}],"
-           "\"composition models\":[{\"model\":\"uniform\",\"compositions\":[" + std::to_string(s.comp[i]) + "]}]}";
+      f += std::string(i ? "," : "") + "{\"coordinate\":" + std::to_string(i) + ",\"segments\":" + seg(i) + ",\"temperature models\":[{\"model\":\"uniform\",\"temperature\":" + num(s.additive ? s.temp[i] - 1000 : s.temp[i]) + (s.additive ? ",\"operation\":\"add\"" : "") + "}],"
+           "\"composition models\":[{\"model\":\"uniform\",\"compositions\":[" + std::to_string(s.comp[i]) + "]" + (s.additive ? ",\"fractions\":[" + num(0.25 * (i + 1)) + "],\"operation\":\"add\"" : "") + (s.fault ? "" : ",\"min distance slab top\":-1e6") + "}]}";
     f += "]}";
     return world(coord(false), {f});
   }
@@ -216,19 +217,20 @@ namespace
                      c_convex = Ctx::counter_id("convexity_checks"), c_member = Ctx::counter_id("membership_checks_against_interpolated_extent"), c_skip = Ctx::counter_id("skipped_near_boundary");
     uint64_t r = idx;
     const bool fault = r % 2; r /= 2;
-    const int kind = static_cast<int>(r % (N_OVERRIDES + 1)); r /= (N_OVERRIDES + 1);    // N_OVERRIDES: no override, convexity of the base world only
+    const int kind = static_cast<int>(r % (N_OVERRIDES + 2)); r /= (N_OVERRIDES + 2);    // N_OVERRIDES: no override, convexity of the base world only; N_OVERRIDES + 1: the same with additive section models
     unsigned ni = 0;
     while (r >= ns[ni]) { r -= ns[ni]; ++ni; }
     const unsigned n = ns[ni], k = static_cast<unsigned>(r);
     if (fault && kind == 2) return;   // faults have no top truncation
     const SecWorld base = base_secworld(fault, n);
     SecWorld var = base;
+    if (kind == N_OVERRIDES + 1) { var.additive = true; if (k != 0) return; }
     if (kind == 0) var.thick[k] = 1.6e5;
-    if (kind == 1) var.length[k] = 2e5;
+    if (kind == 1) var.length[k] = 1e5;
     if (kind == 2) var.trunc[k] = 0.3e5;
     if (kind == 3) var.temp[k] = 2000;
     if (kind == 4) var.comp[k] = 1;
-    if (kind == 5) var.angle[k] = 60;
+    if (kind == 5) var.angle[k] = 35;
     const std::string base_text = secworld_text(base), var_text = secworld_text(var);
     auto wb = make_world(base_text, 1, "b"), wv = make_world(var_text, 1, "v");
     // section weights come from classifier worlds with the same trench and the same dip tables
@@ -246,7 +248,7 @@ namespace
         ctx.eval();
         auto detail = [&](const std::string &what)
         {
-          return JObj().str("what", what).str("override", kind < N_OVERRIDES ? OVERRIDES[kind] : "none").integer("overridden_coordinate", k).integer("coordinates", n).raw("point", jarr(p)).num("depth", q.depth)
+          return JObj().str("what", what).str("override", kind < N_OVERRIDES ? OVERRIDES[kind] : kind == N_OVERRIDES ? "none" : "none, additive section models").integer("overridden_coordinate", k).integer("coordinates", n).raw("point", jarr(p)).num("depth", q.depth)
                  .raw("base_answer", jarr(ab)).raw("overridden_answer", jarr(av)).raw("section_weights_base", jarr(mb)).raw("section_weights_overridden", jarr(mv)).raw("request", jreq(REQ))
                  .str("base_world", base_text).str("overridden_world", var_text).str("classifier_world", cls_var_text).done();
         };
@@ -308,7 +310,16 @@ namespace
                       const bool is_in = a[SLOT_TAG] >= 0;
                       if (expect_in != is_in)
                         { ctx.violation("C10/sections/" + fname + "/extent-is-not-the-interpolation-of-the-neighbouring-sections", detail(std::string("membership disagrees with thickness / top truncation / length interpolated with the section weights; expected ") + (expect_in ? "inside" : "outside"))); break; }
-                      if (is_in)
+                      if (is_in && s.additive)
+                        {
+                          // background at this depth, from a point far away from the feature
+                          const double Tbg = w.properties(P3{{-5e6, -5e6, CART_TOP - q.depth}}, q.depth, {{{1,0,0}}})[0];
+                          double add_t = 0, add_c = 0;
+                          for (unsigned j = 0; j < n; ++j) { add_t += m[j] * (s.temp[j] - 1000); add_c += m[j] * 0.25 * (j + 1); }
+                          if (!(std::fabs(a[SLOT_T] - (Tbg + add_t)) <= 1e-9 * (Tbg + add_t))) { ctx.violation("C10/sections/" + fname + "/additive-temperature-is-not-the-interpolation-of-the-neighbouring-sections", detail("with 'add' models the temperature is not background + convex combination of the two sections' offsets")); break; }
+                          if (!(std::fabs(a[SLOT_C] - add_c) <= 1e-12)) { ctx.violation("C10/sections/" + fname + "/additive-composition-is-not-the-interpolation-of-the-neighbouring-sections", detail("with 'add' models the composition is not the convex combination of the two sections' offsets")); break; }
+                        }
+                      else if (is_in)
                         {
                           if (!(std::fabs(a[SLOT_T] - temp) <= 1e-9 * temp)) { ctx.violation("C10/sections/" + fname + "/temperature-is-not-the-interpolation-of-the-neighbouring-sections", detail("temperature is not the convex combination of the two sections' uniform temperatures")); break; }
                           if (!(std::fabs(a[SLOT_C] - c0) <= 1e-12 && std::fabs(a[SLOT_C+1] - c1) <= 1e-12)) { ctx.violation("C10/sections/" + fname + "/composition-is-not-the-interpolation-of-the-neighbouring-sections", detail("composition is not the convex combination of the two sections' compositions")); break; }
@@ -323,8 +334,8 @@ namespace
     ctx.count(c_cmp, pts_.size());
     ctx.count(c_changed, changed);
     ctx.count(c_far, far);
-    if (kind == N_OVERRIDES || changed > 0) ctx.nontrivial();
-    if (idx % 37 == 3) ctx.sample(JObj().boolean("fault", fault).integer("coordinates", n).integer("overridden_coordinate", k).str("override", kind < N_OVERRIDES ? OVERRIDES[kind] : "none")
+    if (kind >= N_OVERRIDES || changed > 0) ctx.nontrivial();
+    if (idx % 37 == 3) ctx.sample(JObj().boolean("fault", fault).integer("coordinates", n).integer("overridden_coordinate", k).str("override", kind < N_OVERRIDES ? OVERRIDES[kind] : kind == N_OVERRIDES ? "none" : "none, additive section models")
                                     .integer("probes_changed", static_cast<long long>(changed)).integer("probes_required_unchanged", static_cast<long long>(far)).done());
   }
 }
@@ -336,7 +347,7 @@ int main(int argc, char **argv)
   spec.level = "exploration";
   spec.rule = "suite layouts: full product {slab, fault} x {1,2} segments x placement of each of the four model kinds in {feature, section entries, every segment} (3^4) x every subset of coordinates carrying an explicit section entry "
               "(2^n, n = 2,3 | 2,3,4); every layout is compared bit-for-bit with the feature-level layout of the same logical world. suite sections: {slab, fault} x n coordinates x overridden coordinate k x override kind "
-              "{thickness, length, top truncation, uniform temperature, composition, dip angle, none}; section weights are read through classifier worlds whose section j paints composition j. "
+              "{thickness, length, top truncation, uniform temperature, composition, dip angle, none, none with additive (operation add) section models}; section weights are read through classifier worlds whose section j paints composition j. "
               "non-trivial: more than 20 probes inside the feature (layouts) / the override changed at least one probe (sections)";
   spec.assumptions = {"the trench parameter of a probe is observed, not computed: a classifier world with the same trench and dips paints composition j in section j, so the returned compositions are the interpolation weights",
                       "locality: a probe with zero weight on the overridden section must answer bit-identically; extent: membership must equal top truncation <= distance from plane <= thickness and 0 <= distance along plane <= length with the three quantities interpolated with the observed weights (probes within 1 mm of a limit are skipped and counted)",
@@ -360,9 +371,9 @@ int main(int argc, char **argv)
     s[0].run = [](uint64_t i, Ctx &c) { run_layout(ns, i, c); };
     s[0].bound = "{slab, fault} x {1, 2} segments x 3^4 placements x all subsets of coordinates with explicit sections for n in " + std::string(th ? "{2,3,4}" : "{2,3}") + " coordinates";
     s[1].name = "sections";
-    s[1].n = 2 * (N_OVERRIDES + 1) * ks;
+    s[1].n = 2 * (N_OVERRIDES + 2) * ks;
     s[1].run = [](uint64_t i, Ctx &c) { run_sections(ns2, i, c); };
-    s[1].bound = "{slab, fault} x 7 override kinds x every coordinate k of trenches with n in " + std::string(th ? "{2,3,4,5}" : "{3,4}") + " coordinates";
+    s[1].bound = "{slab, fault} x 8 kinds (6 overrides, none, none with additive section models) x every coordinate k of trenches with n in " + std::string(th ? "{2,3,4,5}" : "{3,4}") + " coordinates";
     return s;
   });
 }
